@@ -550,22 +550,14 @@ func (t *Transition) emitEnterEvents() Result {
 func (t *Transition) emitExitEvents() Result {
 	for _, fromState := range t.Exits {
 		args := t.Mutation.Args
-		autoState := t.cacheSchema[fromState].Auto
 
 		// FooExit
 		ret := t.emitHandler(fromState, "", false, false, fromState+SuffixExit,
 			args)
 		if ret == Canceled {
-			if t.IsAuto() && autoState {
-				// partial auto state acceptance
-				targetStates := t.TargetStates()
-				idx := slices.Index(targetStates, fromState)
-				t.TargetIndexes = slices.Delete(t.TargetIndexes, idx, idx+1)
-				targetStates = slices.Delete(targetStates, idx, idx+1)
-				t.cacheTargetStates.Store(&targetStates)
-			} else {
-				return ret
-			}
+			// an exiting state is never one of the target states, so there's
+			// nothing to drop for a partial auto acceptance
+			return ret
 		}
 	}
 
